@@ -121,12 +121,14 @@ class Sym(object):
 
 DEFAULT_W = dict(query=30, refit=12, threshold=10, calibrate=6, handout=8,
                  mutate=3, restart=7, clone=4, ambient=5, eigsh=3, set_nondata=4,
-                 failfit=3, fault=0, new=6)
+                 failfit=3, fault=0, new=6, sweep=0)
 
 
 def gen_history(seed, tier, classes=None, weights=None, n_ops=(6, 16),
                 max_handles=3, pre_p=0.4, dmax=6, fresh_p=0.0, dataset_kinds=None,
-                unknown=False, verbose_p=0.15, extras_p=0.5, share_p=0.3):
+                unknown=False, verbose_p=0.15, extras_p=0.5, share_p=0.3,
+                classifier_bias=1, cp_fit_p=0.25, cp_invalid_p=0.0, calib_invalid_p=0.25,
+                store_bias=1):
   r = substream(seed, "hist")
   W = dict(DEFAULT_W)
   W.update(weights or {})
@@ -164,7 +166,7 @@ def gen_history(seed, tier, classes=None, weights=None, n_ops=(6, 16),
     if r.random() < verbose_p and name != "Covariance" and "verbose" in \
         cls_params(name):
       p["verbose"] = True
-    pre = r.choice(["ndarray", "list", "store"]) if r.random() < pre_p else None
+    pre = r.choice(["ndarray", "list"] + ["store"] * store_bias) if r.random() < pre_p else None
     hid = len(syms)
     op = dict(op="new", h=hid, cls=name, params=p)
     if pre:
@@ -186,8 +188,8 @@ def gen_history(seed, tier, classes=None, weights=None, n_ops=(6, 16),
     via = "indices" if (s.pre and r.random() < 0.6) else "formed"
     op = dict(op="fit", h=s.hid, data=dk, via=via)
     ex = fit_extras(s.name, r, D, extras_p)
-    if s.name in PAIRS and r.random() < 0.25:
-      ex["calibration_params"] = gen_cp(r)
+    if s.name in PAIRS and r.random() < cp_fit_p:
+      ex["calibration_params"] = gen_cp(r, r.random() < cp_invalid_p)
     if ex:
       op["extras"] = ex
     if unknown and SPEC[s.name].get("sup") and r.random() < 0.5:
@@ -195,6 +197,11 @@ def gen_history(seed, tier, classes=None, weights=None, n_ops=(6, 16),
     ops.append(op)
     s.fitted = True
     s.fit_data = dk
+    cpx = ex.get("calibration_params")
+    if cpx is not None:
+      from .props.c04 import _valid_cp
+      if not _valid_cp(cpx):
+        s.fitted = s.fitted_before if hasattr(s, "fitted_before") else False
 
   def probe(s):
     return dict(data=s.fit_data or s.data, seed=r.randrange(1000), m=r.randint(3, 7),
@@ -205,7 +212,7 @@ def gen_history(seed, tier, classes=None, weights=None, n_ops=(6, 16),
     m = ["transform", "pair_distance", "pair_score", "score_pairs",
          "get_mahalanobis_matrix", "metric_call"]
     if tuple_size(s.name):
-      m += ["predict", "decision_function", "score"]
+      m += ["predict", "decision_function", "score"] * classifier_bias
     return m
 
   s0 = None
@@ -246,8 +253,13 @@ def gen_history(seed, tier, classes=None, weights=None, n_ops=(6, 16),
         if v["kind"] == "float" and r.random() < 0.5:
           v["v"] = round(r.uniform(0, 6), 3)
       ops.append(dict(op="set_threshold", h=s.hid, value=v))
+    elif k == "sweep" and s.name in PAIRS:
+      vs = [dict(kind="float", v=round(r.uniform(0, 8), 3)) for _ in range(r.randint(2, 4))]
+      pb = dict(probe(s), via="formed")
+      vs.append(dict(kind="dist", probe=pb, i=r.randrange(5)))
+      ops.append(dict(op="sweep", h=s.hid, values=vs, probe=pb))
     elif k == "calibrate" and s.name in PAIRS:
-      inv = r.random() < 0.25
+      inv = r.random() < calib_invalid_p
       ops.append(dict(op="calibrate", h=s.hid, data=s.fit_data, seed=r.randrange(1000),
                       m=r.randint(4, 12), noise=r.choice([0, 0.2, 0.5]),
                       dups=r.random() < 0.4, cp=gen_cp(r, inv),
